@@ -294,6 +294,11 @@ def controller_rules(chk, S, r3):
             ok = all(bb.iv(v).ge1 for v in new_leaves)
             r3.require(status(ok), f"{name}.apply invariant-inductive", "state >= 1 is preserved for every error_power > 0 (memory only updated on acceptance)",
                        f"controller state after apply is {T.show(state_new, 5)} with interval {[str(bb.iv(v)) for v in new_leaves]}: the invariant state >= 1 is not preserved (memory updated on rejections?)", where)
+        # (v) a rejection (error_power < 1) leaves the controller state unchanged: the memory is the last *accepted* error ratio
+        if len(new_leaves) == len(leaves):
+            same = all(B.select_under(br, v) is a for v, (a, _init) in zip(new_leaves, leaves))
+            r3.require(same if same else (False if known and not br.unknown_ops else None), f"{name}.apply rejection keeps the controller state", "error_power < 1 => state unchanged",
+                       f"after a rejection the controller state becomes {[T.show(B.select_under(br, v), 4) for v in new_leaves]} instead of staying {[T.show(a) for a, _ in leaves]}", where)
         chk.sample({"rule": "R-C06-3", "controller": name, "factor": T.show(factor, 6), "interval_any": str(ivp), "interval_rejected": str(ivr)})
 
 
